@@ -328,6 +328,12 @@ fn cmd_gen_cases(m: &HashMap<String, String>) {
         }
         return;
     }
+    if kind == "shapes" {
+        for case in cases::shape_cases(&mut rng, n) {
+            writeln!(out, "{}", case).unwrap();
+        }
+        return;
+    }
     if kind == "brooms" {
         for case in cases::broom_cases(&mut rng, n, minn, maxn) {
             writeln!(out, "{}", case).unwrap();
